@@ -38,6 +38,27 @@ def run(tier):
         sig = "%s %s on db of %d entries" % (e["ev"], json.dumps(args, sort_keys=True), len(tr[step - 1]["after"]))
         rep.fail(clause, sig, detail={"event": e, "before": tr[step - 1]["after"]},
                  replay={"history": tr[: step + 1]}, group="%s/%s" % (e["ev"], clause))
+    if tier == "thorough":
+        # binding self-test: in 30 recorded histories the database logged after the last accepted add is
+        # altered; the specification must flag each of those histories
+        sel, want = [], set()
+        for tid in sorted(by)[:400]:
+            tr = json.loads(json.dumps(by[tid]))
+            adds = [e for e in tr if e["ev"] == "add" and not e["raised"] and e["after"]]
+            if not adds:
+                continue
+            adds[-1]["after"][-1]["formula"] += "_x"
+            sel += tr
+            want.add(tid)
+            if len(want) >= 30:
+                break
+        cp = log + ".corrupted.ndjson"
+        common.write_ndjson(cp, sel)
+        _, cbad, _ = common.validate_trace("RuleDB_Trace", cp)
+        os.remove(cp)
+        if not want <= {b[0] for b in cbad}:
+            raise common.MachineryError("binding self-test: RuleDB_Trace accepted a corrupted history")
+        rep.extra["binding_self_tests"] = ["RuleDB_Trace: %d histories with an altered database snapshot, all rejected" % len(want)]
     rep.sample(by[1])
     rep.sample(by[max(by)][:4])
     rep.extra.update(info)
